@@ -72,26 +72,26 @@ PROPS = {
                  'one point too few, zeros, 2^31 and 2^32 neighbours), methods 0..9, float32 xFilesFactor patterns incl. NaN/Inf/-0, through '
                  'NewHeader, Header.TakeFrom, ParseArchiveInfoList, Create+Sync+Open and the CLI flags; non-trivial when something is accepted',
                  'NewHeader, fillOffset, validate, Header.TakeFrom, ParseArchiveInfoList, Create/Open, cmd/flags.go', shrink=False),
-    'C08': entry(gens_cli.gen_c08, 150, 2500, 'real CopyCommand runs on generated source/destination pairs (sparse, NaN holes, coarser archives '
+    'C08': entry(gens_cli.GENS['C08'], 150, 2500, 'real CopyCommand runs on generated source/destination pairs (sparse, NaN holes, coarser archives '
                  'inconsistent with finer ones; missing, fresh, filled, partly equal, equal and mismatching destinations; default, narrow, past, '
                  'beyond-retention, degenerate and future windows; archive selections incl. out of range; both NaN modes; glob trees); '
                  'non-trivial when a destination fetch returns a value', 'cmd/copy.go, cmd/timeserieslist.go, cmd/view.go fetchTimeSeriesList', shrink=False, timeout=3000),
-    'C09': entry(gens_cli.gen_c09, 200, 3000, 'real DiffCommand runs on file pairs (same, exact copy, few slots differ, NaN vs value, +0 vs -0, last bit, '
+    'C09': entry(gens_cli.GENS['C09'], 200, 3000, 'real DiffCommand runs on file pairs (same, exact copy, few slots differ, NaN vs value, +0 vs -0, last bit, '
                  'missing sides, differing layouts, unsynced destination), both directions, glob trees; non-trivial when both files were read',
                  'cmd/diff.go', shrink=False, ignore=ignore_missing_side),
-    'C10': entry(gens_cli.gen_c10, 150, 2500, 'real SumCommand runs on item trees of 1-12 files with holes, all-NaN columns, a file of differing layout '
+    'C10': entry(gens_cli.GENS['C10'], 150, 2500, 'real SumCommand runs on item trees of 1-12 files with holes, all-NaN columns, a file of differing layout '
                  'in first/middle/last position, patterns matching nothing, order-sensitive values with the first file held locked', 'cmd/sum.go, cmd/glob.go', shrink=False),
-    'C11': entry(gens_cli.gen_c11, 100, 2000, 'real SumCopyCommand / SumDiffCommand runs on item trees with absent, empty, partial, stale and mismatching '
+    'C11': entry(gens_cli.GENS['C11'], 100, 2000, 'real SumCopyCommand / SumDiffCommand runs on item trees with absent, empty, partial, stale and mismatching '
                  'destinations; sum-diff before and after, a later change of one source slot, second sum-copy', 'cmd/sum_copy.go, cmd/sum_diff.go', shrink=False, ignore=ignore_missing_side),
-    'C18': entry(gens_cli.gen_c18, 200, 3000, 'real ViewCommand / ViewRawCommand runs (header on/off, sort on/off, windows incl. degenerate, archive selections) '
+    'C18': entry(gens_cli.GENS['C18'], 200, 3000, 'real ViewCommand / ViewRawCommand runs (header on/off, sort on/off, windows incl. degenerate, archive selections) '
                  'on files with 17-digit values, infinities and NaN; text parsed back with Go\'s own ParseFloat/time.Parse', 'cmd/view.go, cmd/view_raw.go, cmd/points_list.go', shrink=False),
-    'C20': entry(gens_cli.gen_c20, 150, 2500, 'real GenerateCommand runs at the wall clock (small steps, so every alignment of the instant to the steps occurs), '
+    'C20': entry(gens_cli.GENS['C20'], 150, 2500, 'real GenerateCommand runs at the wall clock (small steps, so every alignment of the instant to the steps occurs), '
                  'fill on/off, maxima incl. 0, existing destination; one third of the cases run the generator and the per-archive write at an explicit instant '
                  '(hook): 1.7e9, around 2^31, 2^31+1e8, 3e9, each aligned / unaligned / in the last finer slot of the coarsest interval, layouts incl. finer retention = one coarser step', 'cmd/generate.go', shrink=False),
-    'C12': entry(gens_cli.gen_c12, 80, 1500, 'one real server (whispertool server) per driver process; view, view-raw, sum, both sides of diff, the source of '
+    'C12': entry(gens_cli.GENS['C12'], 80, 1500, 'one real server (whispertool server) per driver process; view, view-raw, sum, both sides of diff, the source of '
                  'copy and file/item globbing run once against the directory and once against the URL, plus raw HTTP queries with a clock in the past; '
                  'file names contain + & % = ; #; the model predicts one answer for both modes', 'cmd/server.go handlers, client decoders in cmd/view.go, cmd/view_raw.go, cmd/glob.go, cmd/sum.go; net/http transports bytes', shrink=False),
-    'C16': entry(gens_cli.gen_c16, 120, 2000, 'cells of the matrix subcommand (view, view-raw, diff, copy, sum, sum-copy, sum-diff, generate) x archive selection '
+    'C16': entry(gens_cli.GENS['C16'], 120, 2000, 'cells of the matrix subcommand (view, view-raw, diff, copy, sum, sum-copy, sum-diff, generate) x archive selection '
                  '(all / each id / out of range) x window (default, narrow, past, beyond retention, degenerate, future) x fault (text-out that cannot be opened, '
                  '/dev/full with a short and with a long report, missing source, unreadable source, mismatching destination layout); the status (ok / diff / '
                  'notexist / err, never panic) and the effect on the destination are compared', 'all of cmd/*.go through the command structs', shrink=False),
